@@ -62,7 +62,7 @@ var watchRealStub = map[string]string{
 func init() {
 	props["C44"] = propSpec{
 		Engine: "watchsim", Level: "exploration",
-		QuickS: 75, ThoroughS: 1500, DetSamples: 24, DetSamplesT: 200,
+		QuickS: 110, ThoroughS: 1500, DetSamples: 24, DetSamplesT: 200,
 		Rule: "one run = the real `d2 --watch` in a synctest bubble with 0-5 simulated browser clients (connect at any time, read, stall, close, drop, drop mid-handshake), 0-12 saves of the input and (half of the runs) of an imported file and a file imported by that one, in three editor styles (truncate+write in chunks, write temp+rename over, rename away+create, with torn intermediate states), saves that drop and later restore the import, a browser tab navigating between the boards of a multi-board input (page GETs that switch the rendered board and request a compile), simulated inotify (duplicates, dropped write events, transiently failing re-watch, errors on the Errors channel). The tape picks which parked goroutine or actor proceeds and when the clock advances. After the last save - and, as checkpoints, after a third of the other saves - faults stop and the run continues for 60 simulated seconds; then per-client order (every client's frames are a subsequence, with repetitions, of the results the compile loop stored) and final delivery (latest content of every file, board navigated to last) are checked. Non-trivial = at least one client and one save; distinct = distinct hash of the full decision sequence.",
 		Assumptions: []string{
 			"environment: the last save leaves the file present; modification times increase with every save; only plain Write events are ever dropped (the watch stays and the 10 s poll can still see the change); fs event loss that also loses the watch (inotify queue overflow) is outside the property's quantifier",
@@ -75,7 +75,7 @@ func init() {
 	}
 	props["C45"] = propSpec{
 		Engine: "watchsim", Level: "exploration",
-		QuickS: 75, ThoroughS: 1200, DetSamples: 24, DetSamplesT: 200,
+		QuickS: 90, ThoroughS: 1200, DetSamples: 24, DetSamplesT: 200,
 		Rule: "same simulator as C44 with the operator's SIGTERM/SIGINT delivered at a tape-chosen step (30x more likely while a client sits between admission, upgrade and registration or is mid-handshake); clients keep connecting, stalling and dropping during shutdown. Checked: at the instant close() returns every started handler has exited and admitted = exited + failed upgrades; no admission is ordered after close began; `d2 --watch` returns without xmain's 1-minute forced exit (the clock only runs while the simulator holds no server goroutine); no panic; no d2cli goroutine alive two simulated hours later. Non-trivial = at least one client; distinct = distinct decision-sequence hash.",
 		Assumptions: []string{
 			"trace events ws.admitted and close.begin are emitted under the watcher's client mutex, so their order in the trace is the lock order",
@@ -113,7 +113,7 @@ func init() {
 	}
 	props["C25"] = propSpec{
 		Engine: "pipesim", Level: "exploration",
-		QuickS: 90, ThoroughS: 1800, DetSamples: 4, DetSamplesT: 40, WatchdogS: 900,
+		QuickS: 120, ThoroughS: 1800, DetSamples: 4, DetSamplesT: 40, WatchdogS: 900,
 		Rule: "as C08 but through d2lib.Compile (dagre, ELK in ~10% of specs; one session in six is ELK-only through the plugin object, with generated self-loops), d2exporter and d2svg.Render of every board, with sketch mode, theme, dark theme, pad and center drawn from the tape; the compared result is the SVG bytes of all boards. Scripts are limited to 2.5 KB quick / 20 KB thorough to bound layout time.",
 		Assumptions: []string{
 			"as C08; shared state that exists here (font registry under its mutex, goldmark instance, dagre plugin options) is exercised at stage and at statement granularity; a task holding a lock is never stopped",
